@@ -6,7 +6,12 @@ factorisations of the composites built here, square roots, Jacobi quotients, cha
 integers).  No verdict is computed here: spec/trace/KeyTrace.tla judges with spec/data/KeyInvariants.
 
   c05_keys.py cases     stdin {"items": [case...], "deep": bool}  -> traces
-  c05_keys.py generate  stdin {"items": [{"what": "rsa"|"dsa"|"dsa-domain"|"elgamal"|"ecc", ...}], "deep": bool} -> traces
+        case = {"cid": int, "ty": "rsa"|"dsa"|"elgamal"|"ws"|"ed"|"mt", "form": a form of sys/KeyPipeline, "corr": [corruption...], "kid": real key,
+                "variant": "der"|"pem", "cls": the model's class or "", "why": the model's failed step, "deep": bool (optional, overrides)}
+        kid: rsa fix512 | fix512r | fix768 | gen1024;  dsa toy | d512 | d1024 | d2048;  elgamal eg128 | eg256;  curves "<name>/<short|full|one|seed>/<index>"
+  c05_keys.py generate  stdin {"items": [{"cid": int, "what": "rsa"|"dsa"|"dsa-domain"|"elgamal"|"ecc", ...}], "deep": bool} -> traces
+        rsa: bits, e, tape ("small-d": scripted entropy, see RSA_SMALLD);  dsa: bits;  dsa-domain: bits, kid, corr;  elgamal: bits;  ecc: curve
+A case that cannot be expressed in its format yields no trace.  Every case runs in a forked child under a deadline (see isolated()).
 The fixed primes / domains below were found at authoring time by a seeded search with Python integers (40 Miller-Rabin rounds)."""
 import base64
 import hashlib
